@@ -1,8 +1,126 @@
-import AlgoVerif.Common
-/-! Line-protocol component for C05 — not built yet. -/
+import AlgoVerif.Model.C05
+import AlgoVerif.Model.C05Binomial
+import AlgoVerif.Model.C05Fibonacci
+/-! Line-protocol component for C05 (keys `Int`, values `String`; `ord=min|max` picks the comparator). -/
 namespace AlgoVerif.C05.Driver
+open AlgoVerif AlgoVerif.C05
 
-def runCase (_hdr : List String) (ops : List String) : List String :=
-  ops.map fun _ => "bad-case"
+def cmpMin (a b : Int) : Int := if a < b then -1 else if a > b then 1 else 0
+def cmpMax (a b : Int) : Int := if a > b then -1 else if a < b then 1 else 0
+def eqS (a b : String) : Bool := a == b
+
+def showRes : Res Int String → String
+  | .unit => "ok"
+  | .bool b => s!"ok {showBool b}"
+  | .int n => s!"ok {n}"
+  | .ikv none => "ok none"
+  | .ikv (some (i, k, v)) => s!"ok some {i} {k} {v}"
+  | .kv none => "ok none"
+  | .kv (some (k, v)) => s!"ok some {k} {v}"
+
+def parseOp (line : String) : Option (Op Int String) :=
+  match words line with
+  | ["insert", i, k, v] => do let i ← parseInt? i; let k ← parseInt? k; pure (.insert i k v)
+  | ["changekey", i, k] => do let i ← parseInt? i; let k ← parseInt? k; pure (.changeKey i k)
+  | ["delete"] => some .delete
+  | ["deleteindex", i] => do let i ← parseInt? i; pure (.deleteIndex i)
+  | ["deleteall"] => some .deleteAll
+  | ["peek"] => some .peek
+  | ["peekindex", i] => do let i ← parseInt? i; pure (.peekIndex i)
+  | ["containsindex", i] => do let i ← parseInt? i; pure (.containsIndex i)
+  | ["containskey", k] => do let k ← parseInt? k; pure (.containsKey k)
+  | ["containsvalue", v] => some (.containsValue v)
+  | ["size"] => some .size
+  | ["isempty"] => some .isEmpty
+  | _ => none
+
+/-! ### dumps (same text as `heap.VerifIndexedDump`) -/
+
+def joinSp (l : List String) : String := " ".intercalate l
+
+def dumpBinary (h : IBinary Int String) : String :=
+  let kvs := h.kvs.toList.map fun e => match e with
+    | some (k, v) => s!"({k},{v})"
+    | none => "-"
+  s!"n={h.n} heap={showNatList h.heap.toList} pos={showIntList h.pos.toList} kvs=[{joinSp kvs}]"
+
+def showCell (cells : Array (Cell Int String)) (id : Nat) : String × String :=
+  match cells[id]? with
+  | some c => (toString c.index, s!"{c.index} {c.key} {c.val}")
+  | none => ("?", "? ? ?")
+
+def dumpBT (cells : Array (Cell Int String)) (par : String) : BT → String
+  | .nil => ""
+  | .node id o c s =>
+    let (idx, txt) := showCell cells id
+    let inner := match c with
+      | .nil => ""
+      | c => " " ++ dumpBT cells idx c
+    s!"({txt} {o} ^{par}{inner})" ++ dumpBT cells par s
+
+def showNodes (nodes : Array (Option Nat)) (pre : List Nat) : String :=
+  joinSp (nodes.toList.map fun e => match e with
+    | none => "-"
+    | some id => match pre.findIdx? (· == id) with
+      | some k => toString k
+      | none => "?")
+
+def dumpBinomial (h : IBinomial Int String) : String :=
+  s!"n={h.n} head={dumpBT h.cells "-" h.head} nodes=[{showNodes h.nodes h.head.ids}]"
+
+def dumpFT (cells : Array (Cell Int String)) (par : String) : FT → String
+  | .nil => ""
+  | .node id d m c nx =>
+    let (idx, txt) := showCell cells id
+    let inner := match c with
+      | .nil => ""
+      | c => " " ++ dumpFT cells idx c
+    let mk := if m then "*" else "."
+    s!"({txt} {d} {mk} ^{par}{inner})" ++ dumpFT cells par nx
+
+def dumpFib (h : IFib Int String) : String :=
+  let forest := FT.ofList h.roots
+  s!"n={h.n} ext={dumpFT h.cells "-" forest} nodes=[{showNodes h.nodes forest.ids}]"
+
+/-- generic case loop: `step` on parsed ops, `dump` rendered from the state -/
+def runGeneric {σ : Type} (step : σ → Op Int String → Outcome (σ × Res Int String)) (dump : σ → String)
+    (init : σ) (ops : List String) : List String := Id.run do
+  let mut s := init
+  let mut dead := false
+  let mut out : Array String := #[]
+  for line in ops do
+    if dead then out := out.push "skip"; continue
+    if words line == ["dump"] then out := out.push ("ok " ++ dump s); continue
+    match parseOp line with
+    | none => out := out.push "bad-op"
+    | some op =>
+      match step s op with
+      | .ok (s', r) => s := s'; out := out.push (showRes r)
+      | .panic => dead := true; out := out.push "panic"
+      | .diverge => dead := true; out := out.push "hang"
+  return out.toList
+
+def runMaxDeg (ops : List String) : List String :=
+  ops.map fun line =>
+    match words line with
+    | ["maxdeg", n] =>
+      match parseInt? n with
+      | some n =>
+        match fibMaxDegree n with
+        | .ok d => s!"ok {d}"
+        | .panic => "panic"
+        | .diverge => "hang"
+      | none => "bad-op"
+    | _ => "bad-op"
+
+def runCase (hdr : List String) (ops : List String) : List String :=
+  let cap := headerNat hdr "cap" 0
+  let cmp := if headerGet hdr "ord" == some "max" then cmpMax else cmpMin
+  match headerGet hdr "comp" with
+  | some "ibinary" => runGeneric (IBinary.step cmp eqS) dumpBinary (IBinary.new cap) ops
+  | some "ibinomial" => runGeneric (IBinomial.step cmp eqS) dumpBinomial (IBinomial.new cap) ops
+  | some "ifibonacci" => runGeneric (IFib.step cmp eqS) dumpFib (IFib.new cap) ops
+  | some "maxdeg" => runMaxDeg ops
+  | _ => ops.map fun _ => "bad-case"
 
 end AlgoVerif.C05.Driver
